@@ -604,12 +604,14 @@ static bool sameTri(const HalfedgeTriangulation& a, const HalfedgeTriangulation&
 int main(int argc, char** argv) {
   Runner R("C10", argc, argv);
   // size level: 2 = thorough, 1 = quick, 0 = small.  With --asan-subset (the seq-asan run) every tier drops
-  // one level: ASan quick = small bound, ASan thorough = the quick bound.
+  // one level for `seq` and `reuse` (ASan quick = small bound, ASan thorough = the quick bound) and the
+  // hole / pair phases always run at the small bound (lvH).
   bool asanSubset = false;
   for (int i = 1; i < argc; ++i)
     if (std::string(argv[i]) == "--asan-subset") asanSubset = true;
   const int level = (R.a.thorough() ? 2 : 1) - (asanSubset ? 1 : 0);
-  const bool thorough = level >= 2;
+  const int lvH = asanSubset ? 0 : level;
+  const bool thorough = lvH >= 2;  // used by the hole / pair phases only
   auto want = [&](const std::string& name) {
     if (!R.a.onlyPhase.empty() && R.a.onlyPhase != name) return false;
     if (!R.a.onlyCase.empty() && R.a.onlyCase.substr(0, R.a.onlyCase.find(':')) != name) return false;
@@ -708,10 +710,10 @@ int main(int argc, char** argv) {
   // ---------- phases hole1 / holes2: contours with holes (and islands inside holes)
   // holes: simple CW rings of 3..4 vertices over the half lattice {1,1.5,2}^2 (796 of them)
   // islands: CCW triangles over the quarter lattice {1.25,1.5,1.75}^2 (228)
-  // hole1 : EVERY (outer, hole, order) combination; outer = simple CCW ring without duplicates over the 12
-  //         boundary lattice points with 3 (level 0) / <= 4 (level 1) vertices, over all 16 points with <= 5
-  //         vertices and both contour orders at level 2.  A hole that is not strictly inside gives an
-  //         overlapping input: termination + index validity only.
+  // hole1 : EVERY (outer, hole) combination, outer contour first; outer = simple CCW ring without duplicates
+  //         over the 12 boundary lattice points with 3 (level 0) / <= 4 (level 1) vertices, over all 16
+  //         points with <= 5 vertices at level 2.  A hole that is not strictly inside gives an overlapping
+  //         input: termination + index validity only.
   // holes2: outer x {two disjoint holes | hole + island inside it}, only the combinations that are valid
   //         (every hole strictly inside the outer contour); the index space is the concatenation of the
   //         per-outer lists of admissible inner configurations.
@@ -731,14 +733,14 @@ int main(int argc, char** argv) {
     holeListsBuilt = true;
     holes1 = enumRings(half9, 3, 4, -1, false);
     islands = enumRings(quart9, 3, 3, +1, false);
-    outers1 = level >= 2   ? enumRings(full16, 3, 5, +1, false)
-              : level == 1 ? enumRings(bound12, 3, 4, +1, false)
-                           : enumRings(bound12, 3, 3, +1, false);
+    outers1 = lvH >= 2   ? enumRings(full16, 3, 5, +1, false)
+              : lvH == 1 ? enumRings(bound12, 3, 4, +1, false)
+                         : enumRings(bound12, 3, 3, +1, false);
     // holes2 outer contours: <= 4 vertices over the 12 boundary points; level 1 keeps those that strictly
     // contain the whole hole lattice [1,2]^2, level 0 only the four rotations of the full square
     std::vector<Ring> cand2;
     for (const Ring& o : enumRings(bound12, 3, 4, +1, false)) {
-      if (level <= 1) {
+      if (lvH <= 1) {
         bool all = true;
         for (P p : half9) {
           for (int i = 0; i < o.n; ++i)
@@ -747,7 +749,7 @@ int main(int argc, char** argv) {
         }
         if (!all) continue;
       }
-      if (level == 0) {
+      if (lvH == 0) {
         bool corners = true;
         for (int i = 0; i < o.n; ++i)
           if ((o.v[i].x != 0 && o.v[i].x != 12) || (o.v[i].y != 0 && o.v[i].y != 12)) corners = false;
@@ -812,7 +814,7 @@ int main(int argc, char** argv) {
               outers1.size(), holes1.size(), islands.size(), inners2.size(), outers2.size(), innerLists.size(),
               (unsigned long long)acc);
   };
-  const int orders1 = thorough ? 2 : 1;
+  const int orders1 = 1;  // outer contour first (both contour orders are covered in holes2 and two)
   auto genHole1 = [&](uint64_t idx) {
     int order = (int)(idx % orders1);
     uint64_t r = idx / orders1;
@@ -844,7 +846,7 @@ int main(int argc, char** argv) {
           runSet(c, s, si, 0x6);
           if (si.valid && idx % 50021 == 0) c.sample(setStr(s));
         },
-        CN, thorough ? 25 : 23);
+        CN, thorough ? 24 : 23);
   }
   if (want("holes2")) {
     buildHoleLists();
@@ -858,7 +860,7 @@ int main(int argc, char** argv) {
           runSet(c, s, si, 0x6);
           if (idx % 50021 == 0) c.sample(setStr(s));
         },
-        CN, thorough ? 26 : 23);
+        CN, thorough ? 24 : 23);
   }
 
   // ---------- phase two: ordered pairs of CCW contours (o = 2 when disjoint)
@@ -871,7 +873,7 @@ int main(int argc, char** argv) {
   uint64_t twoN = 0;
   auto buildTwo = [&]() {
     if (!tri3.empty()) return;
-    tri3 = enumRings(level == 0 ? sub9 : full16, 3, 3, +1, false);
+    tri3 = enumRings(lvH == 0 ? sub9 : full16, 3, 3, +1, false);
     blocks.push_back({&tri3, &tri3, 0});
     twoN = (uint64_t)tri3.size() * tri3.size();
     if (thorough) {
@@ -901,7 +903,7 @@ int main(int argc, char** argv) {
           runSet(c, s, si, 0x6);
           if (si.valid && idx % 70001 == 0) c.sample(setStr(s));
         },
-        CN, thorough ? 25 : 22);
+        CN, thorough ? 24 : 22);
   }
 
   // ---------- phase tiny: contours with 0, 1 or 2 vertices, alone or next to a real polygon.
@@ -983,7 +985,7 @@ int main(int argc, char** argv) {
         }
       }
     };
-    const int M = thorough ? 6 : level == 1 ? 2 : 1;  // pool of 200 (ASan quick) / 400 / 1200 inputs
+    const int M = level >= 2 ? 6 : level == 1 ? 2 : 1;  // pool of 200 (ASan quick) / 400 / 1200 inputs
     const uint64_t seqN6 = seqOff[std::min(L, 6) + 1];  // sequences of length 3..6
     take(genSeq, seqN6, 75 * M, true);
     take(genSeq, seqN6, 35 * M, false);
